@@ -3,7 +3,7 @@
 From Coq Require Import List NArith ZArith Bool Lia.
 From Emmet Require Import lib.Base model.MarkupTokenizer model.MarkupParser model.MarkupConvert
      model.MarkupResolve proofs.AttrProofs.
-From Emmet Require proofs.BemProofs.
+From Emmet Require proofs.BemProofs proofs.LoremFill proofs.SafeFormat model.MarkupLorem.
 Import ListNotations.
 
 (* ------------------------------------------------------------------ one level of walk_resolve,
@@ -460,13 +460,19 @@ Proof.
   unfold snippet_values. rewrite map_length. simpl. lia.
 Qed.
 
-Theorem markup_parse_terminates : forall (cfg : mconfig) (abbr : str), markup_parse cfg abbr <> OutOfFuel.
+(* markup_parse runs out of fuel only inside the lorem pass, when the oracle stream of the configuration ran out
+   (snippet resolution never does; without a lorem node the oracle is not consulted) *)
+Theorem markup_parse_terminates : forall (cfg : mconfig) (abbr : str),
+  markup_parse cfg abbr = OutOfFuel ->
+  exists resolved, MarkupResolve.lorem_fill_list resolved (mc_draws cfg) = MarkupLorem.LExhausted.
 Proof.
-  intros. unfold markup_parse.
-  apply bind_no_oof; [apply parse_abbr_no_oof|]. intros tree _.
-  apply bind_no_oof; [apply resolve_terminates|]. intros resolved _.
-  (* the transform pass (BEM addon included) is total: BemProofs.transform_list_ok *)
-  destruct (BemProofs.transform_list_ok cfg resolved) as [t Et]. rewrite Et. discriminate.
+  intros cfg abbr. unfold markup_parse.
+  pose proof (parse_abbr_no_oof (mc_jsx cfg) (mkCenv (mc_text cfg) (mc_variables cfg) (mc_href cfg)) (mc_max_repeat cfg) abbr) as HP.
+  destruct (parse_abbr _ _ _ abbr) as [tree|k p| |]; cbn [bind]; try discriminate; [|contradiction].
+  pose proof (resolve_terminates cfg tree) as HR.
+  destruct (walk_resolve _ cfg [] tree) as [resolved|k p| |]; cbn [bind]; try discriminate; [|contradiction].
+  (* the transform pass: lorem draws (LoremFill), then the rest, BEM addon included (BemProofs) *)
+  pose proof (SafeFormat.transform_total cfg resolved) as HT. intros E. rewrite E in HT. exists resolved. exact HT.
 Qed.
 
 (* ------------------------------------------------------------------ nesting depth: fuel counts the
